@@ -520,7 +520,12 @@ def v2_step_oracle(ctx, w, op, out, res, pre, post, rep):
         ctx.violate("v2.withdraw.negative_amount", f"withdraw({op['amount']!r}) raised {out} after changing the holding from {a0!r} to {a1!r}", rep)
     if out == "ok" and all(float(op[k]) >= 0 for k in ("long", "short") if k in op) and (op["kind"] == "deposit" or (op["amount"] is None or 0 <= float(op["amount"]) <= a0)):
         if all(math.isfinite(float(getattr(res, k))) for k in G.LP_FIELDS):
-            v2_formula_oracle(ctx, w, op, res, a0, rep)
+            try:
+                v2_formula_oracle(ctx, w, op, res, a0, rep)
+            except ZeroDivisionError:
+                # a row with zero supply / price / token value: value per share is undefined there, so the formula clause says nothing
+                # (the unchanged code raises ZeroDivisionError on such rows itself; a variant that accepts the call must not crash the oracle)
+                ctx.count(f"v2_formula_undefined_on_degenerate_row:{op['kind']}")
 
 
 def v2_sequences(ctx: Ctx, n: int):
